@@ -607,7 +607,20 @@ def check_C02(tier_, sd, consts_ok, consts_detail):
         elif (a["verdict"], a["T"]) != (b["verdict"], b["T"]) and len(violations) < 5:
             violations.append(proj_violation("C02", "dependency directives at the end of the file: verdict or task trace differ from the model (a dependency was not registered?)", q, a, b,
                                              found=(a["verdict"] != b["verdict"])))
-    cov["evaluations"] += len(tl); cov["dependency_directives_last_cases"] = len(tl)
+    blk = []
+    for k_, mid in enumerate(["// TXTPP#temp t%d.tmp\n//   body\n\n", "// TXTPP#write w\n// x\nplain line\n", "// TXTPP#run printf 'r\\n'\n//   \n\n", "// TXTPP#\n// note\ntext\n"]):
+        for inp in (["a.txt"], ["."]):
+            q = Project("blk%d%s" % (k_, "d" if inp == ["."] else "a"))
+            q.files = [("/a.txt.txtpp", ("a top\n// TXTPP#include b.txt\n" + (mid % k_ if "%d" in mid else mid) + "// TXTPP#include x.txt\na end\n").encode()), ("/b.txt.txtpp", b"b text\n"),
+                       ("/x.txt.txtpp", b"x line 1\nx line 2\n"), ("/x.txt", b"OLD STALE X\n"), ("/a.txt", b"STALE\n")]
+            q.inputs = inp; q.sched = [(k_ + t) % 3 for t in range(10)]; blk.append(q)
+    bi2, bm2 = both(blk)
+    for q, a, b in zip(blk, bi2, bm2):
+        if a["verdict"] == "ok" and b"OLD STALE X" in (a["F"].get("/a.txt") or b"") and len(violations) < 5:
+            violations.append(proj_violation("C02", "a dependency directive that follows a multi-line block and an ordinary line was not registered: the STALE output of the dependency was included", q, a, b))
+        elif (a["verdict"], a["F"], sorted(trace_list(a))) != (b["verdict"], b["F"], sorted(trace_list(b))) and len(violations) < 5:
+            violations.append(proj_violation("C02", "dependency directive after a multi-line block: verdict/bytes/processed set differ from the model", q, a, b, found=(a["verdict"] == "ok" and a["F"].get("/a.txt") != b["F"].get("/a.txt"))))
+    cov["evaluations"] += len(tl) + len(blk); cov["dependency_directives_last_cases"] = len(tl); cov["dependency_after_block_cases"] = len(blk)
     return {"coverage": cov, "violations": violations}
 
 def check_C03(tier_, sd, consts_ok, consts_detail):
@@ -675,6 +688,20 @@ def check_C03(tier_, sd, consts_ok, consts_detail):
             if len(violations) < 5: violations.append(proj_violation("C03", "non-ASCII directive prefix: the run ended with `%s`, commands not run exactly once: %s" % (a["verdict"], bad), q, a, b))
         elif (a["verdict"], a["F"] if a["verdict"] == "ok" else None) != (b["verdict"], b["F"] if b["verdict"] == "ok" else None) and len(violations) < 5:
             violations.append(proj_violation("C03", "non-ASCII directive prefix: verdict/bytes differ from the model", q, a, b, found=False))
+    dirs_ = []
+    for k_, dn in enumerate(["chapters.txtpp", "parts.txtpp.d", "x.md.txtpp"]):
+        q = Project("srcdir%d" % k_); q.dirs = ["/proj/" + dn + "/deep", "/proj/plain"]
+        q.files = [("/proj/top.txt.txtpp", b"-TXTPP#run printf x >> @M@/cnt_top; printf 't\\n'\n\n"), ("/proj/%s/one.txt.txtpp" % dn, b"-TXTPP#run printf x >> @M@/cnt_one; printf 'o\\n'\n\n"),
+                   ("/proj/%s/deep/two.txtpp" % dn, b"-TXTPP#run printf x >> @M@/cnt_two; printf 'w\\n'\n\n"), ("/proj/plain/three.txtpp.md", b"-TXTPP#run printf x >> @M@/cnt_three; printf 'h\\n'\n\n")]
+        q.inputs = ["proj"]; q.recursive = True; q.sched = [(k_ + t) % 4 for t in range(16)]; dirs_.append(q)
+    complete_oracles(dirs_)
+    si_, sm_ = both(dirs_)
+    for q, a, b in zip(dirs_, si_, sm_):
+        cnt = {n_: len(v_) for n_, v_ in a["M"].items() if n_.startswith("cnt_")}
+        if (a["verdict"] != "ok" or cnt != {"cnt_top": 1, "cnt_one": 1, "cnt_two": 1, "cnt_three": 1}) and len(violations) < 5:
+            violations.append(proj_violation("C03", "recursive run over a directory NAMED like a source: verdict %s, command counts %s (every source below it must be completed exactly once)" % (a["verdict"], cnt), q, a, b))
+        elif (a["verdict"], a["F"]) != (b["verdict"], b["F"]) and len(violations) < 5:
+            violations.append(proj_violation("C03", "directory named like a source: differs from the model", q, a, b, found=False))
     # "if it reports success ... its output exists": sources whose output is EMPTY (only temp / after / empty directives, an empty file),
     # on a tree without outputs and on a cleaned tree, in build and --needed mode
     empt = []
@@ -774,7 +801,19 @@ def check_C05(tier_, sd, consts_ok, consts_detail):
             violations.append(proj_violation("C05", "a project without cycles (two sources of one output, one includer) failed", q, a, b))
         elif (a["verdict"], sorted(trace_list(a))) != (b["verdict"], sorted(trace_list(b))) and len(violations) < 5:
             violations.append(proj_violation("C05", "two sources of one output: verdict or processed set differ from the model", q, a, b, found=False))
-    cov["two_sources_one_output_runs"] = len(two)
+    selfinc = []
+    for k_, (srcn, outn) in enumerate([("page.md.txtpp", "page.md"), ("page.txtpp.md", "page.md"), ("page.txtpp.md.txtpp", "page.txtpp.md"), ("page.txtpp.txtpp.md", "page.txtpp.md"), ("p.v2.txtpp.md", "p.v2.md")]):
+        for md in (0, 1):
+            q = Project("selfinc%d_%d" % (k_, md)); q.mode = md
+            q.files = [("/" + srcn, ("top\n-TXTPP#include %s\nend\n" % outn).encode()), ("/" + outn, b"old content of the output\n"), ("/other.txt.txtpp", b"other\n")]
+            q.inputs = ["."]; q.sched = [k_ % 2, 0, 0, 0]; selfinc.append(q)
+    fi2, fm2 = both(selfinc, oracle=False)
+    for q, a, b in zip(selfinc, fi2, fm2):
+        if a["verdict"] == "ok" and len(violations) < 5:
+            violations.append(proj_violation("C05", "a file that includes its own output was built and reported as success", q, a, b))
+        elif a["verdict"] != b["verdict"] and len(violations) < 5:
+            violations.append(proj_violation("C05", "self-including file: verdict differs from the model", q, a, b, found=False))
+    cov["two_sources_one_output_runs"] = len(two); cov["self_include_runs"] = len(selfinc)
     # "a project without cycles never gets a circular-dependency failure": acyclic classes in which one file FAILS (a command exits
     # non-zero) while others are waiting for their dependencies - the run fails, but not with the circular-dependency report;
     # cyclic classes without any failing file - the failure IS the circular-dependency report
@@ -1508,13 +1547,22 @@ def check_C06(tier_, sd, consts_ok, consts_detail):
         if a["verdict"] != b["verdict"] and len(violations) < 5:
             violations.append(proj_violation("C06", "verify verdict differs from the model (%s)" % what, q, a, b, found=(expect_fail is not None)))
         if what != "none": nontriv.add((k, what))
-    cov = {"evaluations": len(steps) + ngen + len(tq) + len(tsteps), "distinct_nontrivial": len(nontriv), "temp_dependent_output_cases": len(tsteps),
+    vses = cli_session({"a.txt.txtpp": "a\n", "a.txt": "a\nEXTRA", "b.md.txtpp": "b\n", "keep.txt": "k"},
+                       [["-N", "verify", "-q"], ["--needed", "-q", "verify", "-q", "a.txt"], ["-N", "-n", "verify", "-q", "b.md"], ["verify", "-q", "b.md", "a.txt"], ["-q", "-N"], ["-N", "verify", "-q"]])
+    v_ok = [vses[0][0] == 1 and vses[0][1].get("a.txt") == b"a\nEXTRA" and "b.md" not in vses[0][1], vses[1][0] == 1 and vses[1][1].get("a.txt") == b"a\nEXTRA",
+            vses[2][0] == 1 and "b.md" not in vses[2][1], vses[3][0] == 1 and "b.md" not in vses[3][1], vses[4][0] == 0, vses[5][0] == 0]
+    if not all(v_ok) and len(violations) < 6:
+        violations.append({"found": True, "replay": {"property": "C06", "what": "`txtpp [flags] verify` did not fail on stale/missing outputs, or created/changed an output",
+                           "steps": "-N verify (a.txt stale, b.md missing: exit 1, nothing touched); --needed -q verify a.txt; -N -n verify b.md; verify b.md a.txt; -N (build); -N verify (passes)", "steps_ok": v_ok, "exits": [x[0] for x in vses]}})
+    cov = {"evaluations": len(steps) + ngen + len(tq) + len(tsteps) + len(vses), "distinct_nontrivial": len(nontriv), "temp_dependent_output_cases": len(tsteps), "cli_verify_steps_ok": v_ok,
            "rule": "generated projects are built, then verified after: nothing / deleting an output / one-byte flip, insertion, deletion, truncation, extension, emptying of an output (requested file or dependency) / flipping the trailing-newline option; "
                    "observed: verdict, and bytes + mtime + inode of every output before vs after; distinct_nontrivial = distinct (project, tampering)",
            "built_projects": len(built), "runs_with_idle_polls": sum(1 for q in steps if getattr(q, "idle", False)), "verdicts_by_tampering": {"%s/%s" % k: v for k, v in verd.items()},
            "samples": [{"tamper": meta[1][1], "verdict": oi[1]["verdict"]}]}
     xcheck(cov, violations, "C06", steps, om)
     return {"coverage": cov, "violations": violations}
+
+check_C06.needs_cli = True
 
 def escaping_temp_projects(rng, n, tag):
     """sources whose temp targets lie in a sub-directory, in the parent directory, and OUTSIDE the base directory"""
@@ -1745,7 +1793,16 @@ def check_C08(tier_, sd, consts_ok, consts_detail):
         q.srcs = ["/a.txt.txtpp", "/b.txt.txtpp"]; q.deps = {"/a.txt.txtpp": ["/b.txt.txtpp"], "/b.txt.txtpp": []}
         q.inputs = ["."]; q.recursive = True; q.sched = [r.below(4) for _ in range(10)]; q.stats = collections.Counter({"late-read:project": 1})
         late.append(q)
+    emptyo = []
+    for k_ in range(6):
+        q = Project("emptyout%d" % k_)
+        q.files = [("/gen.txtpp", b"-TXTPP#temp data%d.txt\n-row\n" % k_), ("/blank.txtpp", b""), ("/stamp.txt.txtpp", b"TXTPP#after gen\n"), ("/bare.txtpp", b"-TXTPP#\n- note\n"),
+                   ("/main.txt.txtpp", b"top\n-TXTPP#after gen\n=TXTPP#include data%d.txt\nend\n" % k_)]
+        q.srcs = [f_ for f_, _ in q.files]; q.deps = {}; q.inputs = ["."]; q.recursive = True; q.sched = [(k_ + t) % 3 for t in range(10)]; q.stats = collections.Counter({"empty-output:project": 1})
+        emptyo.append(q)
+    eoi, eom = both(emptyo, oracle=False)
     li, lm = both(late, oracle=False)
+    late = late + emptyo; li = li + eoi; lm = lm + eom
     # a source that is refused (its output would be a txtpp name / not beside it) must leave NOTHING behind, or the next build of the same
     # directory sees another tree: build three times, the tree after every build must be the same and contain no new source
     refused = []
@@ -1894,7 +1951,15 @@ def check_C09(tier_, sd, consts_ok, consts_detail):
     if not all(cli_ok) and len(violations) < 5:
         violations.append({"found": True, "replay": {"property": "C09", "what": "the binary's -N/--needed flag does not behave as documented", "steps_ok": cli_ok,
                            "steps": "-N; -N (mtimes must stay); build (output mtime changes, temp stays); tamper; --needed (updated)"}})
-    cov = {"evaluations": len(steps) + ngen + len(ses) + 2 * len(errp), "distinct_nontrivial": len(nontriv), "cli_flag_steps_ok": cli_ok,
+    script = b"#!/bin/sh\nMARK=custom; export MARK; exec sh \"$@\"\n"
+    s1 = cli_session({"a.txt.txtpp": "x\n-TXTPP#run printf '%s\\n' \"$MARK\"\n\nlast\n", "mysh": script}, [["!chmod", "mysh"], ["-q", "-n", "-s", "./mysh -c", "a.txt"]])
+    s2 = cli_session({"a.txt.txtpp": "x\n-TXTPP#run printf '%s\\n' \"$MARK\"\n\nlast\n", "mysh": script}, [["!chmod", "mysh"], ["-q", "-N", "-n", "-s", "./mysh -c", "a.txt"], ["-q", "-n", "-N", "-s", "./mysh -c", "a.txt"]])
+    nn_ok = [s1[1][0] == 0 and b"custom" in (s1[1][1].get("a.txt") or b"") and not (s1[1][1].get("a.txt") or b"\n").endswith(b"\n"), s2[1][0] == 0 and s2[1][1].get("a.txt") == s1[1][1].get("a.txt"),
+             s2[2][0] == 0 and s2[2][2].get("a.txt") == s2[1][2].get("a.txt")]
+    if not all(nn_ok) and len(violations) < 5:
+        violations.append({"found": True, "replay": {"property": "C09", "what": "`txtpp -N -n -s SHELL` does not give the bytes of `txtpp -n -s SHELL`, or rewrites an output that is already right",
+                           "steps_ok": nn_ok, "normal": short(s1[1][1].get("a.txt")), "needed": short(s2[1][1].get("a.txt")), "exits": [s1[1][0], s2[1][0], s2[2][0]]}})
+    cov = {"evaluations": len(steps) + ngen + len(ses) + 2 * len(errp) + 5, "distinct_nontrivial": len(nontriv), "cli_flag_steps_ok": cli_ok, "cli_needed_with_other_flags_ok": nn_ok,
            "build_vs_needed_pairs_with_errors": {"pairs": len(errp), "failing": nerr}, "two_dependency_schedules": len(truns),
            "rule": "generated projects x pre-states of the generated paths (absent / exact / prefix / extended / junk incl. non-UTF-8) x modes {needed, build, verify}; all mtimes pre-set to a sentinel; "
                    "checked on the implementation: needed = build byte for byte, correct outputs (needed) and correct temp files (all modes) keep inode and mtime, stale ones are updated; plus source edits; "
@@ -1977,6 +2042,21 @@ def check_C10(tier_, sd, consts_ok, consts_detail):
             violations.append(proj_violation("C10", "a source whose output would not be a file beside it: files outside its footprint were touched or created: %s %s" % (hit, new_), q, a, b))
         elif (a["verdict"], a["F"], a["U"]) != (b["verdict"], b["F"], b["U"]) and len(violations) < 5:
             violations.append(proj_violation("C10", "odd source names: verdict / tree / touched set differ from the model", q, a, b, found=False))
+    sib = []
+    for k_, inp in enumerate([["report.v2.md"], ["index.md"], ["report.v2.md", "index.md"]]):
+        for md in (0, 2, 1, 3):
+            q = Project("sibling%d_%d" % (k_, md)); q.mode = md
+            q.files = [("/report.v2.txtpp.md", b"v2\n-TXTPP#temp report.v2.gen.txt\n-g2\n"), ("/report.txtpp.md", b"plain report\n-TXTPP#temp report.gen.txt\n-g\n"), ("/index.md.txtpp", b"idx\n-TXTPP#include report.v2.md\n"),
+                       ("/report.md", b"decoy: output of the sibling, not selected\n"), ("/report.gen.txt", b"decoy temp of the sibling\n"), ("/report.v2.md", b"v2\n"), ("/report.v2.gen.txt", b"g2")]
+            q.inputs = inp; q.sched = [(k_ + t) % 3 for t in range(8)]; sib.append(q)
+    bi3, bm3 = both(sib, oracle=False)
+    for q, a, b in zip(sib, bi3, bm3):
+        init = dict(q.files)
+        hit = [f_ for f_ in ("/report.md", "/report.gen.txt", "/report.txtpp.md") if a["F"].get(f_) != init[f_] or f_ in a["U"]]
+        if hit and len(violations) < 5:
+            violations.append(proj_violation("C10", "files of a source that was neither selected nor a dependency were touched: %s (inputs %s)" % (hit, q.inputs), q, a, b))
+        elif (a["verdict"], a["F"], a["U"]) != (b["verdict"], b["F"], b["U"]) and len(violations) < 5:
+            violations.append(proj_violation("C10", "dotted stem beside a sibling: verdict / tree / touched set differ from the model", q, a, b, found=False))
     # the binary: a subcommand fixes the mode whatever top-level flags precede it (verify and clean never write), and the decoys stay
     src = {"a.txt.txtpp": "x\n-TXTPP#temp t.tmp\n-body\ny\n", "a.txt": "stale", "keep.md": "decoy", "sub/b.txtpp": "b\n", "sub/b": "old b"}
     ses = cli_session(src, [["-N", "-q", "verify", "-q", "a.txt"], ["-N", "verify", "-q", "-r"], ["-N", "-n", "clean", "-q", "sub"], ["-N", "clean", "-q", "-r"], ["-N", "verify", "-q", "-r"]])
@@ -1991,7 +2071,7 @@ def check_C10(tier_, sd, consts_ok, consts_detail):
         violations.append({"found": True, "replay": {"property": "C10", "what": "the binary wrote or removed something a verify/clean subcommand must not touch (top-level -N/-n before the subcommand)",
                            "steps": "-N -q verify a.txt (stale: exit 1, nothing touched); -N verify -r; -N -n clean sub (removes sub/b only); -N clean -r (removes a.txt, creates nothing); -N verify -r (missing outputs: exit 1, creates nothing)",
                            "steps_ok": cli_ok, "exits": [x[0] for x in ses], "trees": [sorted(x[1]) for x in ses]}})
-    cov = {"evaluations": len(projs) + len(pre) + len(ses) + len(odd), "distinct_nontrivial": len(nontriv), "cli_subcommand_steps_ok": cli_ok, "odd_output_name_runs": len(odd),
+    cov = {"evaluations": len(projs) + len(pre) + len(ses) + len(odd), "distinct_nontrivial": len(nontriv), "cli_subcommand_steps_ok": cli_ok, "odd_output_name_runs": len(odd), "dotted_stem_sibling_runs": len(sib),
            "rule": "generated projects (successful and failing) x modes {build, needed, clean, verify} x input selections x recursive flag, half of them on an already built tree, with decoy files next to sources, in sub-directories and at near-miss names; "
                    "full-tree snapshot (bytes, inode, mtime) before/after: every touched path must be an output of a source of the project or a temp target, every other file keeps its bytes; clean creates nothing; verify touches no output; "
                    "the touched set must equal the model's event log; distinct_nontrivial = distinct (mode, touched set)",
@@ -2465,7 +2545,7 @@ def check_C04(tier_, sd, consts_ok, consts_detail):
     rng = Rng(sd).fork("C04")
     names = NAMES4
     shapes = [[(0, 1), (1, 2), (2, 3)], [(0, 1), (0, 2), (1, 3), (2, 3)], [(0, 1), (2, 3)], []]
-    faults = ["bad-directive", "failing-command", "killed-command", "missing-include", "include-directory", "output-is-directory", "temp-is-directory", "temp-txtpp", "tag-unused", "tag-twice", "invalid-utf8", "verify-mismatch"]
+    faults = ["bad-directive", "failing-command", "killed-command", "tag-shadowed-unused", "missing-include", "include-directory", "output-is-directory", "temp-is-directory", "temp-txtpp", "tag-unused", "tag-twice", "invalid-utf8", "verify-mismatch"]
     projs = []; meta = []
     k = 0
     for edges in shapes:
@@ -2485,6 +2565,7 @@ def check_C04(tier_, sd, consts_ok, consts_detail):
                            "temp-txtpp": (b"%TXTPP#temp gen.txtpp\n%x\n\n" if (k % 2) else b"%TXTPP#temp gen.txtpp.md\n%x\n\n"),
                            "tag-unused": b"%TXTPP#tag NEVERUSED\n%TXTPP#write v\n\n",
                            "tag-twice": b"%TXTPP#tag T1\n%TXTPP#tag T2\n",
+                           "tag-shadowed-unused": b"%TXTPP#tag <<A\n=TXTPP#write one\n%TXTPP#tag A>>\n=TXTPP#write two\n\nvalue: <<A>> end\n",     # `A>>` overlaps the injected `<<A`: it stays stored and is never used
                            "invalid-utf8": b"bad \xff\xfe line\n"}.get(fault)
                     mode = 0
                     if inj is not None:
